@@ -24,8 +24,55 @@ def _is_buf(fn, operand, field="buffer"):
     return s.kind == "path" and s.root == "self" and s.fields[:1] == (field,)
 
 
-def _encode_sites(fn):
-    return [(b, t) for b, t in fn.calls() if is_callee(t, *ENCODE) and _is_buf(fn, t["args"][1], "write_buffer")]
+_PROG = {"p": None}
+_wrap_cache = {}
+
+
+def encode_wrappers(prog):
+    """{fn id: 'one' | 'each'} for private helper methods of the connection handler that wrap the reply encoder:
+    'one'  - every path from entry to return passes exactly one encode into self.write_buffer (a single-reply wrapper);
+    'each' - the helper loops over a batch of results and every iteration passes an encode (a per-result wrapper).
+    A wrapper is treated at its call sites exactly like the encoder it wraps (summaries in the sense of Min et al.)."""
+    key = id(prog)
+    if key in _wrap_cache:
+        return _wrap_cache[key]
+    out = {}
+    for f in prog.lib_fns():
+        if f.file != "src/production/connection_optimized.rs" or f.kind not in ("fn", "method") or f.short in ("encode_resp_into", "encode_error_into"):
+            continue
+        if "OptimizedConnectionHandler" not in f.id:
+            continue
+        encs = [(b, t) for b, t in f.calls() if is_callee(t, *ENCODE) and _is_buf(f, t["args"][1], "write_buffer")]
+        if not encs or any(fn_t for fn_t in [] ):
+            continue
+        # must not consume input or execute commands itself (then it is a handler, not a wrapper)
+        if any(is_callee(t, *CONSUME) for b, t in f.calls()) or any(is_callee(t, r"ShardedActorState::<.*>::", r"try_execute_command$") for b, t in f.calls()):
+            continue
+        encb = {b for b, _ in encs}
+        heads = lib2.loop_heads(f)
+        in_loop = [h for h, (none_t, some_t, nb) in heads.items() if any(eb == some_t or eb in f.reach([some_t], avoid=[h]) for eb in encb)]
+        if in_loop:
+            if all(lib2.iteration_skips(f, h, encb) is None for h in in_loop):
+                out[f.id] = "each"
+            continue
+        miss = lib2.path_avoiding(f, 0, lambda x: f.term(x)["k"] == "return", lambda x: x in encb, (), from_succ=False)
+        twice = any(eb2 in f.reach([eb]) for eb in encb for eb2 in encb)
+        if miss is None and not twice:
+            out[f.id] = "one"
+    _wrap_cache[key] = out
+    return out
+
+
+def _encode_sites(fn, kinds=("one",)):
+    out = [(b, t) for b, t in fn.calls() if is_callee(t, *ENCODE) and _is_buf(fn, t["args"][1], "write_buffer")]
+    prog = _PROG["p"]
+    if prog is not None:
+        wr = encode_wrappers(prog)
+        for b, t in fn.calls():
+            c = prog.local_callee(fn, t)
+            if c is not None and wr.get(c.id) in kinds and c.id != fn.id:
+                out.append((b, t))
+    return out
 
 
 def _consume_sites(fn):
@@ -66,6 +113,7 @@ def _run_body(prog):
 
 
 def _r041(ck, prog, cfg):
+    _PROG["p"] = prog
     fn = _run_body(prog)
     n = 0
     for coll, pipe in ((r"OptimizedConnectionHandler::<S>::collect_get_keys$", r"ShardedActorState::<T>::fast_batch_get_pipeline$"),
@@ -166,6 +214,23 @@ def _r041(ck, prog, cfg):
                         p2 = lib2.path_avoiding(fn, aw[1], is_stop, lambda b, ib=ib: b == ib, (), False)
                         if has_enc and p2 is None:
                             good = True
+                if not good and aw is not None:
+                    # ... or the results are handed to a helper that encodes every element
+                    wr = encode_wrappers(prog)
+                    vals, refs = lib2.value_aliases(fn, aw[0])
+                    for hb, ht in fn.calls():
+                        c = prog.local_callee(fn, ht)
+                        def _is_results(a):
+                            if "c" in a:
+                                return False
+                            if (op_place(a) or {}).get("l") in (vals | refs):
+                                return True
+                            sa = src_of_operand(fn, a, through_calls=BUF_THROUGH)
+                            return sa.local in (vals | refs) or (sa.kind == "call" and callee(pt).rsplit("::", 1)[-1] in callee(sa.term))
+                        if c is not None and wr.get(c.id) == "each" and any(_is_results(a) for a in ht["args"]):
+                            p2 = lib2.path_avoiding(fn, aw[1], is_stop, lambda b, hb=hb: b == hb, (), False)
+                            if p2 is None:
+                                good = True
                 ck.check(good, "R04.1", "run:%s-results-encoded%s" % (cname, _tag(cfg)),
                          "the replies of the batch pipeline are not all written to the reply buffer on every path", fn.where(pt["ln"]),
                          detail="results iterated and encoded before the sequential phase")
@@ -272,7 +337,7 @@ def _ord(fn, b, sites):
 # ---------------------------------------------------------------------------------------------
 def _r043_044(ck, prog, cfg):
     fn = _run_body(prog)
-    encs = _encode_sites(fn)
+    encs = _encode_sites(fn, kinds=("one", "each"))
     err_encb = {b for b, t in encs if is_callee(t, r"encode_error_into$")}
     reads = [b for b, t in fn.calls() if is_callee(t, r"AsyncReadExt::read$")]
     writes = [b for b, t in fn.calls() if is_callee(t, r"AsyncWriteExt::write_all$") and
